@@ -516,6 +516,25 @@ MUTANTS = [
     M("G2-2-reset-from-self", ["C02"], (FE, "self.current_player_indexes[(player_index + 1)..].fill(0);", "self.current_player_indexes[player_index..].fill(0);"), base="G2-2"),
     M("G2-2-no-reset", ["C02"], (FE, "                self.current_player_indexes[(player_index + 1)..].fill(0);\n", ""), base="G2-2"),
     M("G2-2-le-bound", ["C02"], (FE, ".rposition(|(index, entries)| index + 1 < entries.len());", ".rposition(|(index, entries)| index + 1 <= entries.len());"), base="G2-2"),
+    M("benign-F6-3-lazy-token-loop", ["C05", "C10", "C09"], base="F6-3", benign=True),
+    M("F6-3-skip-first", ["C05"], (HRS, ".filter_map(|h| h.parse::<HandRangeToken>().ok());", ".filter_map(|h| h.parse::<HandRangeToken>().ok())\n            .skip(1);"), base="F6-3"),
+    M("F6-3-rsplit", ["C05"], (HRS, "            .split(',')\n            .filter_map(", "            .rsplit(',')\n            .filter_map("), base="F6-3"),
+    M("F6-3-insert-if-absent", ["C05"], (HRS, "                range.0.insert(card_pair, prob);", "                range.0.entry(card_pair).or_insert(prob);"), base="F6-3"),
+    M("benign-G5-3-cow-despace", ["C05", "C10", "C09"], base="G5-3", benign=True),
+    M("G5-3-borrow-always", ["C05"], (HRS, "let compact = if s.contains(' ') {", "let compact = if s.contains('_') {"), base="G5-3"),
+    M("G5-3-inverted", ["C05"], (HRS, "let compact = if s.contains(' ') {", "let compact = if !s.contains(' ') {"), base="G5-3"),
+    M("benign-G7-3-mask-tables", ["C13", "C09", "C08"], base="G7-3", benign=True),
+    M("G7-3-swapped-entries", ["C13"], (CD, "    (HEART_MASK, Suit::Heart),\n    (DIAMOND_MASK, Suit::Diamond),", "    (HEART_MASK, Suit::Diamond),\n    (DIAMOND_MASK, Suit::Heart),"), base="G7-3"),
+    M("G7-3-eq-zero", ["C13"], (CD, ".find(|(mask, _)| bits & mask != 0)", ".find(|(mask, _)| bits & mask == 0)"), base="G7-3"),
+    M("G7-3-last-match", ["C13"], (CD, "        .iter()\n        .find(|(mask, _)| bits & mask != 0)", "        .iter()\n        .rev()\n        .find(|(mask, _)| bits & mask != 0)"), base="G7-3", ),
+    M("G7-3-rank-from-suit-table", ["C13"], (CD, "let rank = first_overlapping(&RANK_MASKS, *value)", "let rank = first_overlapping(&RANK_MASKS, *value >> 1)"), base="G7-3"),
+    M("benign-B7-1-mask-tables", ["C13"], base="B7-1", benign=True),
+    M("benign-D5-1-mask-tables", ["C13"], base="D5-1", benign=True),
+    M("benign-G7-2-rank-table-steps", ["C13", "C09", "C08", "C05", "C12"], base="G7-2", benign=True),
+    M("G7-2-next-plus-two", ["C13"], (RK, "Self::ALL.get(index + 1).copied()", "Self::ALL.get(index + 2).copied()"), base="G7-2"),
+    M("G7-2-prev-minus-two", ["C13"], (RK, "index.checked_sub(1).map(|prev| Self::ALL[prev])", "index.checked_sub(2).map(|prev| Self::ALL[prev])"), base="G7-2"),
+    M("G7-2-prev-oob", ["C13", "C09"], (RK, "index.checked_sub(1).map(|prev| Self::ALL[prev])", "index.checked_sub(1).map(|prev| Self::ALL[prev + 2])"), base="G7-2"),
+    M("benign-D5-4-ordered-table", ["C13", "C09"], base="D5-4", benign=True),
     M("benign-F3-3-computed-flush-weight", ["C01", "C07", "C08"], base="F3-3", benign=True),
     M("F3-3-unreversed", ["C01", "C07"], (MH, "1 << (12 - u8::from(card.rank()))", "1 << u8::from(card.rank())"), base="F3-3"),
     M("F3-3-off-by-one", ["C01", "C07"], (MH, "1 << (12 - u8::from(card.rank()))", "1 << (13 - u8::from(card.rank()))"), base="F3-3"),
